@@ -480,7 +480,13 @@ func (s *Store) writeIndexFile() error {
 	if err != nil {
 		return fmt.Errorf("failed to marshal index file: %w", err)
 	}
-	return os.WriteFile(s.indexPath, indexJSON, 0666)
+	// write to a temporary file and rename it into place, so that a crash or
+	// a concurrent reader never observes a truncated index.json
+	tmpPath := s.indexPath + ".tmp"
+	if err := os.WriteFile(tmpPath, indexJSON, 0666); err != nil {
+		return err
+	}
+	return os.Rename(tmpPath, s.indexPath)
 }
 
 // GC removes garbage from Store. Unsaved index will be lost. To prevent unexpected
